@@ -2,13 +2,14 @@ SPECIFICATION Spec
 CONSTANTS
   N = 4
   MaxTrees = 2
-  NW = 2
-  NT = 5
+  NW = 1
+  NT = 1
   Observe = FALSE
   ObserveFrom = 1
-  TrackDist = FALSE
-  TrackOperand = FALSE
-  AdoptLists = FALSE
+  TrackDist = TRUE
+  TrackOperand = TRUE
+  AdoptLists = TRUE
   CacheChecksCount = TRUE
-INVARIANT GraphAgrees
+INVARIANT OperandIntact
+INVARIANT FreqExact
 CHECK_DEADLOCK FALSE
